@@ -121,6 +121,12 @@ def _unwrap(ctx, se, t):
         return ("call", t[1], tuple(_unwrap(ctx, se, a) for a in t[2]), t[3])
     if k == "after":
         return ("after", _unwrap(ctx, se, t[1]), t[2], _unwrap(ctx, se, t[3]))
+    if k == "upd":
+        if t[2] == ("f", 0):
+            p = adt_path_of(ctx, se, t[1])
+            if p and single_field_struct(ctx.fb, p):
+                return _unwrap(ctx, se, t[3])
+        return ("upd", _unwrap(ctx, se, t[1]), t[2], _unwrap(ctx, se, t[3]))
     if k in ("cindex", "downcast"):
         return (k, _unwrap(ctx, se, t[1])) + t[2:]
     if k == "index":
@@ -472,3 +478,74 @@ def type_mentions(fb, ty, adt_path, by_value_only=True, depth=0):
     if k in ("array", "slice"):
         return type_mentions(fb, ty.elem, adt_path, by_value_only, depth + 1)
     return False
+
+
+# --------------------------------------------------------------------------- A9: FRESH
+
+RNG_FILL = "<rand::prelude::ThreadRng as rand::RngCore>::fill_bytes"
+RNG_NEXT = ("<rand::prelude::ThreadRng as rand::RngCore>::next_u32", "<rand::prelude::ThreadRng as rand::RngCore>::next_u64")
+RNG_SRC = ("rand::thread_rng",)
+
+
+def _rng_origin_ok(ctx, callterm, argidx=0):
+    site = callterm[3][:2]
+    se = ctx.deep._se.get(site[0]) or ctx.wrap._se.get(site[0]) or ctx.deep.run(site[0])
+    if se is None:
+        return False, "no body for %s" % site[0]
+    old = se.call_old.get((site, argidx))
+    if old is None:
+        return False, "generator operand not tracked"
+    o = strip(old)
+    # the generator object itself may have been advanced by earlier draws: peel those
+    while o[0] == "after":
+        o = strip(o[3])
+    if is_call(o) and o[1] in RNG_SRC:
+        return True, "thread_rng() in the same invocation"
+    return False, "generator is %s, not a per-call thread_rng()" % show(o, maxdepth=3)
+
+
+def fresh(ctx, t, depth=0):
+    """(ok, why): is the value a per-call, full-width, unmodified CSPRNG output?"""
+    t = strip(t)
+    k = t[0]
+    if depth > 8:
+        return False, "too deep"
+    if k == "agg":
+        if not t[4]:
+            return False, "empty aggregate"
+        whys = []
+        for x in t[4]:
+            ok, why = fresh(ctx, x, depth + 1)
+            if not ok:
+                return False, why
+            whys.append(why)
+        return True, whys[0]
+    if k == "after":
+        c = t[1]
+        if is_call(c, RNG_FILL) and t[2] == 1:
+            ok, why = _rng_origin_ok(ctx, c)
+            return ok, ("whole buffer filled by ThreadRng::fill_bytes; " + why) if ok else why
+        return False, "last writer is %s" % (c[1] if is_call(c) else show(c, maxdepth=2))
+    if k == "call":
+        if t[1] in RNG_NEXT:
+            ok, why = _rng_origin_ok(ctx, t)
+            return ok, ("ThreadRng::%s; %s" % (t[1].split("::")[-1], why)) if ok else why
+        if t[1] == "rand::random":
+            return True, "rand::random (thread_rng, full width of the type)"
+        return False, "value comes from %s" % t[1]
+    if k == "upd":
+        return False, "partially overwritten value (%s)" % show(t, maxdepth=2)
+    return False, "not a CSPRNG output: %s" % show(t, maxdepth=3)
+
+
+def check_gate(rep, body, fn, eq_edge, ne_edge, accept_blocks, reject_blocks, what):
+    """A1: accept blocks only behind the equal edge, reject blocks only behind the unequal edge"""
+    bad = [bi for bi in accept_blocks if not cfg.must_pass_edge(body, eq_edge, bi)]
+    rep.check(bool(accept_blocks) and not bad, "gate", fn, "accept-only-on-equal", "every path to %s crosses the equal edge bb%d->bb%d" % (what, eq_edge[0], eq_edge[1]),
+              "a path reaches the construction of %s (bb%s) without crossing the equal edge of the proof comparison" % (what, bad), body.loc(bad[0]) if bad else body.loc())
+    bad = [bi for bi in reject_blocks if not cfg.must_pass_edge(body, ne_edge, bi)]
+    rep.check(bool(reject_blocks) and not bad, "gate", fn, "reject-only-on-unequal", "Err only behind the unequal edge", "Err is constructed on a path that does not cross the unequal edge (bb%s)" % bad, body.loc())
+
+
+def calls_in(body, pred):
+    return [bi for bi, t in body.calls() if pred(t)]
